@@ -419,6 +419,9 @@ func runInBubble(t *testing.T, plan *Plan, opt RunOpts, res *RunResult) {
 		res.Stats = env.Sim.Stats()
 		res.TraceHash = env.TraceHash()
 		res.SimTimeNS = int64(env.Sim.Now())
+		if v, ok := w.Data["sim_time_ns"].(int64); ok {
+			res.SimTimeNS = v // engines with their own clock seam (isissim: the mock clock)
+		}
 		res.ShapeHash = shapeHash(w)
 		if c, ok := w.Data["captured"].(map[string][]string); ok {
 			res.Captured = c
